@@ -4,8 +4,13 @@ Extracted (the data-shaped parts of the interpolation code):
   * `_compute_linear_weights_edge`, `_compute_nearest_weights_edge`: straight-line sequences
     of masked assignments on `w_lo`, `w_hi`, `edge` -> statement lists (`EStmt`)
   * `_NearestInterpolator._evaluate`: `np.where(yi <cmp> c, i [+ a], i [+ b])`
-  * `_Interpolator._find_indices`: side of `searchsorted`, the offset, both clipping
-    statements and (textually) the normalised-distance expression.
+  * `_Interpolator._find_indices`: the dtype cast of the points (numeric guard, `casting=`
+    literal, float fallback), side of `searchsorted`, the offset, both clipping statements and
+    (textually) the normalised-distance expression.
+NOT extracted (hand-written in Model/Interp.lean, tied by correspondence only): the corner loop
+of `_PerAxisInterpolator._evaluate`, `_check_interp_input`, the sampling wrapper.
+Aliasing: the statement language has no aliases — every weight is a fresh array (`1 - ndist`,
+`np.copy(ndist)`, `np.where(..)`); a bare `w = ndist` is rejected.
 The grammar is deliberately tiny; anything outside it raises ExtractionError, which the check
 treats as a broken obligation (then searches the real code), never as a pass.
 """
@@ -91,8 +96,13 @@ def _edge_program(fn):
                 t = 'Tgt.wlo' if tgt.id == 'w_lo' else 'Tgt.whi'
                 if _u(val) == '1 - ndist':
                     e = 'WExpr.oneMinus'
-                elif _u(val) in ('ndist', 'np.copy(ndist)'):
+                elif _u(val) == 'np.copy(ndist)':
                     e = 'WExpr.ident'
+                elif _u(val) == 'ndist':
+                    # `w = ndist` makes w an ALIAS of ndist: the masked updates of w would change
+                    # ndist (and every later expression / mask computed from it).  The statement
+                    # language evaluates expressions on the original ndist, so this is rejected.
+                    raise ExtractionError(fn.name + ': `{}` aliases ndist (np.copy required)'.format(src))
                 elif _is_call(val, 'np.where', 3):
                     e = '(WExpr.whereC {} {} {})'.format(_mask_of_compare(val.args[0], 'ndist'),
                                                          _k(_num(val.args[1])), _k(_num(val.args[2])))
@@ -211,8 +221,40 @@ def extract(repo=core.REPO):
             _u(loops[0].iter) != 'zip(x, self.coord_vecs)':
         raise ExtractionError('_find_indices loop changed')
     stmts = [s for s in loops[0].body if not isinstance(s, ast.Try)]
-    if len(loops[0].body) - len(stmts) != 1:
-        raise ExtractionError('_find_indices: expected exactly one try (the dtype cast)')
+    if len(loops[0].body) - len(stmts) != 1 or not isinstance(loops[0].body[0], ast.Try):
+        raise ExtractionError('_find_indices: expected exactly one leading try (the dtype cast)')
+    # --- the cast of the points to the value dtype
+    tr = loops[0].body[0]
+    tb = list(tr.body)
+    guard = 'false'
+    if len(tb) == 2:
+        g = tb[0]
+        if not (isinstance(g, ast.If) and not g.orelse and
+                _u(g.test) == 'not np.issubdtype(self.values.dtype, np.number)' and
+                [_u(t) for t in g.body] == ['raise TypeError']):
+            raise ExtractionError('_find_indices: unknown guard before the cast: ' + _u(g))
+        guard = 'true'
+        tb = tb[1:]
+    if len(tb) != 1:
+        raise ExtractionError('_find_indices: try body changed')
+    cast = tb[0]
+    if not (isinstance(cast, ast.Assign) and _u(cast.targets[0]) == 'xi' and
+            isinstance(cast.value, ast.Call) and _u(cast.value.func) == 'np.asarray(xi).astype' and
+            [_u(a) for a in cast.value.args] == ['self.values.dtype'] and
+            [k.arg for k in cast.value.keywords] == ['casting'] and
+            isinstance(cast.value.keywords[0].value, ast.Constant)):
+        raise ExtractionError('_find_indices: cast statement changed: ' + _u(cast))
+    rule = {'safe': 'CastRule.safe', 'same_kind': 'CastRule.sameKind'}.get(
+        cast.value.keywords[0].value.value)
+    if rule is None:
+        raise ExtractionError('_find_indices: casting rule {!r} outside the grammar'.format(
+            cast.value.keywords[0].value.value))
+    if tr.orelse or tr.finalbody or len(tr.handlers) != 1 or _u(tr.handlers[0].type) != 'TypeError':
+        raise ExtractionError('_find_indices: handlers of the cast changed')
+    hb = tr.handlers[0].body
+    if not (len(hb) == 2 and isinstance(hb[0], ast.Expr) and isinstance(hb[0].value, ast.Call) and
+            _u(hb[0].value.func) == 'warn' and _u(hb[1]) == 'xi = np.asarray(xi, dtype=float)'):
+        raise ExtractionError('_find_indices: fallback of the cast changed: ' + repr([_u(t) for t in hb]))
     if len(stmts) != 5:
         raise ExtractionError('_find_indices: expected 5 statements after the cast, got {}'
                               .format([_u(s) for s in stmts]))
@@ -287,10 +329,16 @@ def clipLowValue : Int := {lv}
 def clipHighBound : Int := {hb}
 def clipHighValue : Int := {hv}
 
+/-- `_find_indices`: the points are cast to the value dtype only behind the guard
+`if not np.issubdtype(values.dtype, np.number): raise TypeError` iff true. -/
+def castGuardNumeric : Bool := {guard}
+/-- `xi.astype(values.dtype, casting=…)`. -/
+def castingRule : CastRule := {rule}
+
 end OdlModel.Gen.Interp
 '''.format(lin=lst(lin), nea=lst(nea), pm=pick_mask, pa=pick_a, pb=pick_b,
            side='true' if side == 'left' else 'false', off=int(off), lb=int(low_b), lv=int(low_v),
-           hb=hi_b, hv=hi_v)
+           hb=hi_b, hv=hi_v, guard=guard, rule=rule)
     return lean
 
 
